@@ -114,7 +114,9 @@ type lessImportFS struct {
 }
 
 func (l *lessImportFS) Open(name string) (fs.File, error) {
-	if l.depth >= maxLessImportDepth {
+	// (once too deep, every further import is refused: the library carries on after a failed
+	// import, and a file that imports itself twice would try 2^100 of them)
+	if l.exceeded || l.depth >= maxLessImportDepth {
 		l.exceeded = true
 		return nil, fmt.Errorf("open %s: @import nesting too deep", name)
 	}
